@@ -249,4 +249,41 @@ theorem exportLoop_log (d : Data) (song : Song) (s0 : Drv) :
         rw [if_neg hnostop'] at herr ⊢
         exact ih s' (elapsed + dl) dl _ k hinv' hk1 (by omega) (by rw [hds, hdt]) hs' hq' (Or.inr hnostop') hmin herrs hacc' herr
 
+/-- **A successful export, update by update.**  The operation list of a successful export is
+the header pokes, the initial writes of `play_song`, the export loop `L`, `stop` and the tag;
+`L` carries exactly the operations of the updates `0 … K` — those of update `k` at sample time
+`735·k` — its waits sum to `735·K`; update `K` is the first after which no channel plays or the
+loop count is reached; no error arises up to then. -/
+theorem exportOps_log (d : Data) (song : Song) (tags : Vgm.Tags) (ops : List Vgm.Op)
+    (h : exportOps d song tags = .ok ops) :
+    ∃ K L, ops = ctorPokes ++ (playSong d song).2 ++ L ++ [Vgm.Op.stop, Vgm.Op.writeTag tags] ∧
+      stamps 0 L = schedLog d song (playSong d song).1 (K + 1) ∧ delaySum L = 735 * K ∧
+      stopCond (updRun d song (K + 1) (playSong d song).1) ∧
+      (∀ j, 1 ≤ j → j ≤ K → ¬ stopCond (updRun d song j (playSong d song).1)) ∧
+      (∀ j, j ≤ K + 1 → (updRun d song j (playSong d song).1).g.err = none) := by
+  unfold exportOps at h
+  generalize hps : playSong d song = ps at h ⊢
+  obtain ⟨s0, o0⟩ := ps
+  simp only at h ⊢
+  have hs0 : s0 = (playSong d song).1 := by rw [hps]
+  have hc : s0.seqCounter = 0 ∧ s0.pcmCounter = 0 ∧ s0.g.err = none ∧ s0.g.loopTrigger = false := by
+    rw [hs0]; simp [playSong]
+  have hstrip : s0.strip = s0 := by
+    cases s0; simp only [Drv.strip] at hc ⊢; simp [hc.1, hc.2.1]
+  have hinv : ClockInv (0, s0.seqCounter, s0.pcmCounter) := by rw [hc.1, hc.2.1]; exact clockInv_init
+  have hlog := exportLoop_log d song s0 exportFuel s0 0 0 [] 0 hinv (by unfold Counted; simp) (Int.le_refl 0)
+    (by simp [delaySum]) hstrip (by unfold LoopQuiet; rw [hc.2.2.2]; simp) (Or.inl (by rw [hc.1]; exact Int.le_refl 0))
+    (by intro j h1 h2; omega) (by intro j hj; have : j = 0 := by omega
+                                  rw [this]; exact hc.2.2.1) (by simp [stamps, schedLog])
+  generalize hel : exportLoop d song exportFuel s0 0 0 [] = el at h hlog
+  obtain ⟨s1, o1⟩ := el
+  simp only at h hlog
+  split at h
+  · exact absurd h (by simp)
+  · rename_i herr
+    injection h with h
+    subst h
+    obtain ⟨K, _, r1, r2, _, r4, r5, r6⟩ := hlog herr
+    exact ⟨K, o1, rfl, r1, r2, r4, r5, r6⟩
+
 end Ctrmml.MdDriver
